@@ -33,7 +33,7 @@ impl PathBuf {
 
 #[verifier::external_body]
 pub struct RedoError { _p: () }
-pub enum RedoErrorKind { FailedInAnotherThread, InvalidTarget, CyclicDependency, FileNotFound, ImmediateExit(i32), Other }
+// RedoErrorKind: the real enum, extracted from src/error.rs by units/inc/state_items.vrs
 pub trait Msg {}
 impl Msg for &str {}
 impl Msg for String {}
@@ -42,7 +42,7 @@ impl RedoError {
     #[verifier::external_body]
     pub fn opaque_error<E>(e: E) -> RedoError { unimplemented!() }
     #[verifier::external_body]
-    pub fn new<S: Msg>(msg: S) -> (r: RedoError) ensures r.kind() == RedoErrorKind::Other { unimplemented!() }
+    pub fn new<S: Msg>(msg: S) -> (r: RedoError) ensures r.kind() == RedoErrorKind::Generic { unimplemented!() }
     #[verifier::external_body]
     pub fn immediate_exit<S: Msg>(code: i32, msg: S) -> (r: RedoError) ensures r.kind() == RedoErrorKind::ImmediateExit(code) { unimplemented!() }
     #[verifier::external_body]
@@ -99,6 +99,12 @@ pub struct Db {
     pub deps: Map<(i64, i64), Edge>,
 }
 pub uninterp spec fn always_name() -> Seq<char>;
+/// the name a path is stored under: relative to the project base, lexically cleaned (state::relpath); C15's subject
+pub uninterp spec fn norm_name(env: Env, name: Seq<char>) -> Seq<char>;
+/// a row just inserted by `insert into Files (name) values (?)`
+pub open spec fn fresh_rec(name: Seq<char>) -> FileRec {
+    FileRec { name, is_generated: false, is_override: false, checked_runid: None, changed_runid: None, failed_runid: None, stamp: None, csum: Seq::empty() }
+}
 /// The rule of File::from_cols_with_runid: the //ALWAYS row reads as changed in the current run.
 pub open spec fn always_rule(r: FileRec, runid: Option<i64>) -> FileRec {
     if r.name == always_name() && runid is Some {
